@@ -443,19 +443,25 @@ class WrapperMixin(object):
         """
         output.append(self.doxygen_begin)
         if "brief" in docs:
-            output.append(self.doxygen_cont + " \\brief %s" % docs["brief"])
+            self.write_doxygen_lines(output, "\\brief ", docs["brief"])
             output.append(self.doxygen_cont)
         if "description" in docs:
-            # Every line of the description is a comment line.
-            lines = docs["description"].split("\n")
-            if lines[-1] == "":
-                lines.pop()  # remove trailing newline
-            for line in lines:
-                output.append(self.doxygen_cont + " " + line)
+            self.write_doxygen_lines(output, "", docs["description"])
         if "return" in docs:
             output.append(self.doxygen_cont)
-            output.append(self.doxygen_cont + " \\return %s" % docs["return"])
+            self.write_doxygen_lines(output, "\\return ", docs["return"])
         output.append(self.doxygen_end)
+
+    def write_doxygen_lines(self, output, tag, text):
+        """Every line of the text is a comment line.
+        The first one starts with tag.
+        """
+        lines = str(text).split("\n")
+        if lines[-1] == "" and (len(lines) > 1 or not tag):
+            lines.pop()  # remove trailing newline
+        for line in lines:
+            output.append(self.doxygen_cont + " " + tag + line)
+            tag = ""
 
     def document_stmts(self, output, ast, stmt0, stmt1):
         """A comments to show which statements were used.
